@@ -237,10 +237,11 @@ def run (lf : LFacts) (sched : List (Act Nat)) : State Nat Nat Nat Nat Nat Nat :
 def concurrentSched : List (Act Nat) :=
   [.enter 0, .enter 1] ++ List.replicate 9 (.work 0 0) ++ [.work 0 1, .work 1 0]
 
-/-- the whole run: every worker of process 0, then every worker of process 1, then both leave -/
+/-- a whole run that is enabled under EITHER repo-lock mode: process 0 enters, builds both targets and leaves;
+    then process 1 enters, finds both up to date and leaves -/
 def fullSched : List (Act Nat) :=
-  [.enter 0, .enter 1] ++ List.replicate 9 (.work 0 0) ++ List.replicate 9 (.work 0 1) ++
-  List.replicate 3 (.work 1 0) ++ List.replicate 3 (.work 1 1) ++ [.leave 0, .leave 1]
+  [.enter 0] ++ List.replicate 9 (.work 0 0) ++ List.replicate 9 (.work 0 1) ++ [.leave 0] ++
+  [.enter 1] ++ List.replicate 3 (.work 1 0) ++ List.replicate 3 (.work 1 1) ++ [.leave 1]
 
 /-- NEGATIVE CONTROL: the same model with a lock that does not exclude. Both processes enter target 0; the second
     one's prepareDirectories removes the tmp dir the first one's action has just written into. -/
